@@ -160,7 +160,7 @@ def main():
         return (isinstance(e, ast.BoolOp) and isinstance(e.op, ast.Or) and isinstance(e.values[0], ast.Name)
                 and e.values[0].id == "expected" and isinstance(e.values[1], ast.Constant) and e.values[1].value == 0)
 
-    thr, nxt, discarded, dthr = {}, {}, [], {}
+    thr, nxt, discarded, dthr, keeps = {}, {}, [], {}, {}
     for hn in sorted(used):
         f = handlers.get(hn)
         if f is None:
@@ -195,7 +195,17 @@ def main():
                     discard_branches.append(last)
                     discarded.append("MARGIN_RULE")
                     dthr["MARGIN_RULE"] = (th, nx)
-        inner = [n for n in ast.walk(f) if isinstance(n, ast.Return) and n is not rets[0] and n not in discard_branches]
+        # `if/elif not rule.wellformed: return expected`: a malformed statement leaves the order state alone
+        wf_returns = []
+        for n in ast.walk(f):
+            if isinstance(n, ast.If) and ast.unparse(n.test) == "not rule.wellformed":
+                last = n.body[-1]
+                if not (len(n.body) == 1 and isinstance(last, ast.Return) and isinstance(last.value, ast.Name)
+                        and last.value.id == "expected"):
+                    raise Refused("handler %s: `not rule.wellformed` branch is not a bare `return expected`" % hn)
+                wf_returns.append(last)
+        inner = [n for n in ast.walk(f) if isinstance(n, ast.Return) and n is not rets[0] and n not in discard_branches
+                 and n not in wf_returns]
         for n in inner:
             if not (isinstance(n.value, ast.Name) and n.value.id == "expected"):
                 raise Refused("handler %s: early return of something else than expected" % hn)
@@ -210,9 +220,9 @@ def main():
             raise Refused("handler %s builds no rule" % hn)
         for c in cls:
             k = CSSRule._typestrings[getattr(C, c)().type]
-            if k in thr and (thr[k], nxt[k]) != (th, nx):
+            if k in thr and (thr[k], nxt[k], keeps[k]) != (th, nx, bool(wf_returns)):
                 raise Refused("two handlers disagree for %s" % k)
-            thr[k], nxt[k] = th, nx
+            thr[k], nxt[k], keeps[k] = th, nx, bool(wf_returns)
     for k, (th, nx) in dthr.items():
         if k in thr:
             raise Refused("%s is both built and discarded by the parser" % k)
@@ -223,6 +233,8 @@ def main():
              "   (None: max(1, expected or 0)) of the handler that builds each kind *)")
     b.append("Definition parse_threshold (k : kind) : option nat :=\n  match k with\n  " + "\n  ".join(
         "| %s => %s" % (k, "None" if thr[k] is None else "Some %d" % thr[k]) for k in order) + "\n  end.")
+    b.append("(* kinds whose handler returns `expected` unchanged when the rule it parsed is not wellformed *)")
+    b.append("Definition parse_malformed_keeps_state : list kind := %s." % klist([k for k in order if keeps.get(k)]))
     b.append("(* statements the parser consumes without keeping a rule *)")
     b.append("Definition parse_discarded_kinds : list kind := %s." % klist(sorted(set(discarded))))
     b.append("Definition parse_next (k : kind) : option nat :=\n  match k with\n  " + "\n  ".join(
